@@ -22,7 +22,7 @@ func TestC09(t *testing.T) {
 	n := e.Pick(48, 10000)
 	vlib.RunCases(t, "C09", "contexts", n, func(c *vlib.Case) vlib.Result {
 		var res vlib.Result
-		kc := genKCase(c.Rng, map[string]bool{"watch-faults": c.Index%5 == 4})
+		kc := genKCase(c.Rng, map[string]bool{"watch-faults": c.Index%5 == 4, "group-with-include": true})
 		rec := runKCase(c, kc, false, nil)
 		if rec.Inconclusive != "" {
 			res.Inconclusive = rec.Inconclusive
@@ -39,6 +39,9 @@ func TestC09(t *testing.T) {
 		for _, kh := range kc.Hooks {
 			for _, b := range kh.Binds {
 				jqs[fmt.Sprintf("%s/%v/%v", b.Jq, b.KeepFull, b.Group != "")] = true
+				if b.Group != "" && len(b.Include) > 0 {
+					res.Count("grouped_bindings_with_includeSnapshotsFrom", 1)
+				}
 			}
 		}
 		if len(rec.Execs) > 0 {
